@@ -58,13 +58,40 @@ def h_fibdemux(cfg):
     dflt = Rec(env, 'default') if cfg['default'] else None
     ends = {f: Rec(env, 'end%d' % f) for f in cfg['ends']}
     fib = {f: sym_int('port%d' % f, 0, k) for f in cfg['fib_flows']}     # k = out of range
+    if cfg.get('raising_out'):
+        # the named output is a device whose own put() fails with a KeyError (a mis-wired next stage): that is the next stage's
+        # error, not a missing table entry - it must surface, and the packet must not be handed to the default output as well
+        class Raiser:
+            element_id = 'raiser'
+
+            def __init__(self):
+                self.log = []
+
+            def put(self, packet):
+                self.log.append((packet, 0))
+                raise KeyError('downstream')
+        outs = [Raiser() for _ in range(k)]
     dm = FIBDemux(outs=outs if k else None, ends=dict(ends) if ends else None, fib=fib, default_out=dflt)     # no outputs: outs omitted
     fl = choice('flow', cfg['nflows'])
     pkt = mk_packet(Packet, 0, sym_int('size', 1), 1, flow_id=fl)
     try:
         dm.put(pkt)
+        surfaced = False
+    except KeyError as ex:
+        if not cfg.get('raising_out'):
+            fail('no-raise', '%s: %s (fib=%s)' % (type(ex).__name__, ex, sorted(cfg['fib_flows'])))
+            return
+        surfaced = True
     except Exception as ex:  # noqa
         fail('no-raise', '%s: %s (fib=%s)' % (type(ex).__name__, ex, sorted(cfg['fib_flows'])))
+        return
+    if cfg.get('raising_out'):
+        reached = [o for o in outs if o.log]
+        if reached:
+            check('c18.fibdemux-at-most-one', surfaced and (dflt is None or not dflt.log),
+                  'the next stage failed inside put(): swallowed=%s, default output got %d' % (not surfaced, len(dflt.log) if dflt else 0))
+            cover('downstream-error-surfaces')
+        cover('nontrivial')
         return
     recs = [('o%d' % i, o) for i, o in enumerate(outs)] + ([('default', dflt)] if dflt else []) + \
         [('end%d' % f, e) for f, e in ends.items()]
@@ -538,6 +565,7 @@ def jobs(tier, seed):
             js.append({'harness': 'hub', 'cfg': {'nend': m, 'ports': mode}})
     for mode in ('none', 'all'):
         js.append({'harness': 'hub', 'cfg': {'nend': 3, 'ports': mode, 'anonymous_last': True}})
+    js.append({'harness': 'fibdemux', 'cfg': {'nouts': 2, 'default': True, 'ends': [], 'fib_flows': [0, 1], 'nflows': 2, 'raising_out': True}})
     for d in (True, False):
         js.append({'harness': 'fibdemux', 'cfg': {'nouts': 0, 'default': d, 'ends': [1], 'fib_flows': [0], 'nflows': 3}})
     js.append({'harness': 'splitter', 'cfg': {'kind': 'two', 'N': 2}})
